@@ -53,13 +53,18 @@ type c12Op struct {
 	ID   string     `json:"id,omitempty"`
 }
 
-// c12Race: a writer that stores Ents while the compactor is held at the
-// HitSel-th (mod number of hits) arrival at the pause point.
-type c12Race struct {
-	Flush  int        `json:"flush"`
+// c12Race: a writer that stores batches while the compactor is held at the
+// pause point: write i commits at the (HitSel mod number of arrivals)+1-th
+// arrival, writes scheduled at the same arrival commit in list order.
+type c12RaceW struct {
 	HitSel int        `json:"hitSel"`
 	Via    string     `json:"via"`
 	Ents   []*kit.Ent `json:"ents"`
+}
+
+type c12Race struct {
+	Flush  int        `json:"flush"`
+	Writes []c12RaceW `json:"writes"`
 }
 
 // c12Kill: the process is killed at the NSel-th (mod number of hits) arrival.
@@ -174,14 +179,14 @@ func (m *c12Model) shapeF10() bool {
 	return false
 }
 
-// shapeF11: the racing write stores a new version of an entity whose newest
-// version is identical to its predecessor (compaction removes that version and
-// rewrites the entity's latest pointer at flush time).
+// shapeF11: a racing write touches an entity whose newest version (when
+// compaction starts) is identical to its predecessor: compaction removes that
+// version and rewrites the entity's latest pointer at flush time.
 func (m *c12Model) shapeF11(w []*kit.Ent) bool {
 	for _, e := range w {
 		vs := m.ByID[e.ID]
 		n := len(vs)
-		if n >= 2 && kit.EqualContent(vs[n-1].E, vs[n-2].E) && !kit.EqualContent(vs[n-1].E, e) {
+		if n >= 2 && kit.EqualContent(vs[n-1].E, vs[n-2].E) {
 			return true
 		}
 	}
@@ -765,7 +770,7 @@ type c12Runner struct {
 	noExclude bool
 	hits      map[int]int // threshold -> arrivals at the pause point
 	// counters
-	compactions, removed, queries, races, kills, killsMid int
+	compactions, removed, queries, races, raceWrites, kills, killsMid int
 }
 
 func (r *c12Runner) fail(format string, a ...any) {
@@ -884,18 +889,37 @@ func c12FeedStr(f []c12FV) string {
 // same write, never compacted. Point-in-time answers at the instants before
 // the race must stay what they were.
 func (r *c12Runner) runRace(rc c12Race) {
-	if !r.noExclude && kit.Known("F11") && r.m.shapeF11(rc.Ents) {
+	var all []*kit.Ent
+	for _, w := range rc.Writes {
+		all = append(all, w.Ents...)
+	}
+	if !r.noExclude && kit.Known("F11") && r.m.shapeF11(all) {
 		kit.S().Exclude("F11")
 		return
 	}
 	hitsTotal := r.countHits(rc.Flush)
-	hit := 1 + rc.HitSel%hitsTotal
-	skip := c12SkipSet(r.m.Feed, rc.Ents)
+	// resolve the schedule: arrival -> writes in list order
+	at := map[int][]c12RaceW{}
+	var order []int
+	for _, w := range rc.Writes {
+		hit := 1 + w.HitSel%hitsTotal
+		if len(at[hit]) == 0 {
+			order = append(order, hit)
+		}
+		at[hit] = append(at[hit], w)
+	}
+	gosort.Ints(order)
+	skip := c12SkipSet(r.m.Feed, all)
+	what := fmt.Sprintf("flush=%d, writers at arrivals %v of %d at %s", rc.Flush, order, hitsTotal, c12Point)
 
 	ref, refDone := r.build()
-	if err := ref.StoreBatch(c12DS, rc.Ents, rc.Via); err != nil {
-		refDone()
-		r.f.Fatalf("VERIF-INFRA twin write failed: %v", err)
+	for _, hit := range order {
+		for _, w := range at[hit] {
+			if err := ref.StoreBatch(c12DS, w.Ents, w.Via); err != nil {
+				refDone()
+				r.f.Fatalf("VERIF-INFRA twin write failed: %v", err)
+			}
+		}
 	}
 	want := r.observe(ref, skip, nil, false, "twin store")
 	refDone()
@@ -904,23 +928,48 @@ func (r *c12Runner) runRace(rc c12Race) {
 	defer done()
 	before := r.observe(h, skip, nil, true, "before compaction")
 	var werr error
-	wrote := false
+	wrote := 0
+	var late []chan error
 	_, err := c12Compact(h, rc.Flush, func(n int) {
-		if n == hit {
-			wrote = true
-			werr = h.StoreBatch(c12DS, rc.Ents, rc.Via)
+		for _, w := range at[n] {
+			w := w
+			ch := make(chan error, 1)
+			go func() { ch <- h.StoreBatch(c12DS, w.Ents, w.Via) }()
+			select {
+			case e := <-ch:
+				wrote++
+				if e != nil && werr == nil {
+					werr = e
+				}
+			case <-time.After(5 * time.Second):
+				// the compactor holds something the writer needs: the write lands after the flush
+				late = append(late, ch)
+			}
 		}
 	})
-	what := fmt.Sprintf("flush=%d writer at arrival %d/%d of %s", rc.Flush, hit, hitsTotal, c12Point)
+	for _, ch := range late {
+		select {
+		case e := <-ch:
+			wrote++
+			if e != nil && werr == nil {
+				werr = e
+			}
+		case <-time.After(60 * time.Second):
+			kit.S().Inconcl()
+			return
+		}
+	}
 	if err != nil {
 		r.fail("COMPACTION-ERROR %s: %v", what, err)
 	}
-	if !wrote {
-		r.f.Fatalf("VERIF-INFRA pause point arrival %d not reached (%s)", hit, what)
+	if wrote != len(rc.Writes) {
+		r.f.Fatalf("VERIF-INFRA %d of %d racing writes executed (%s)", wrote, len(rc.Writes), what)
 	}
 	if werr != nil {
-		// a rejected write is not acknowledged: expected state is the one without it
 		r.fail("RACING-WRITE-REJECTED %s: %v", what, werr)
+	}
+	if len(late) > 0 {
+		kit.S().Class("racing-writer-blocked-until-after-flush", 1)
 	}
 	after := r.observe(h, skip, before, true, "after compaction with racing writer")
 	if s := c12CmpCurrent(want, after); s != "" {
@@ -935,6 +984,7 @@ func (r *c12Runner) runRace(rc c12Race) {
 	}
 	r.removed += n
 	r.races++
+	r.raceWrites += len(rc.Writes)
 }
 
 // kill part: a child process compacts and is killed at the n-th arrival at the
@@ -960,6 +1010,9 @@ func (r *c12Runner) runKill(k c12Kill) {
 			if ws, ok := ee.Sys().(syscall.WaitStatus); ok && ws.Signaled() && ws.Signal() == syscall.SIGKILL {
 				killed = true
 			}
+		}
+		if _, isExit := err.(*exec.ExitError); !killed && !isExit {
+			r.f.Fatalf("VERIF-INFRA cannot run the compaction child: %v", err)
 		}
 		if !killed {
 			if strings.Contains(string(out), "VERIF-INFRA") {
@@ -1026,6 +1079,7 @@ func c12Run(f c12Fataler, c *c12Case, noExclude bool) (*c12Runner, bool) {
 	}
 	kit.S().AddExtra("compactions_compared", r.compactions)
 	kit.S().AddExtra("race_schedules_compared", r.races)
+	kit.S().AddExtra("racing_writes", r.raceWrites)
 	kit.S().AddExtra("kill_points_compared", r.kills)
 	kit.S().AddExtra("kill_points_between_first_and_last_flush", r.killsMid)
 	kit.S().AddExtra("versions_removed_by_compaction", r.removed)
@@ -1133,21 +1187,31 @@ func c12GenCase(t *rapid.T) *c12Case {
 	}
 	flushes := []int{1, 2, 3, c12Default}
 	nr := kit.EnvInt("VERIF_C12_RACES", 2)
-	for i := 0; i < nr; i++ {
-		rc := c12Race{Flush: rapid.SampledFrom(flushes).Draw(t, "rflush"), HitSel: rapid.IntRange(0, 999).Draw(t, "hit"),
-			Via: rapid.SampledFrom([]string{"store", "parser"}).Draw(t, "rvia")}
-		// bias: write to an entity whose newest version is a duplicate of its predecessor
-		var dupLatest []string
-		for _, id := range kit.SortedKeys(m.ByID) {
-			vs := m.ByID[id]
-			if k := len(vs); k >= 2 && kit.EqualContent(vs[k-1].E, vs[k-2].E) {
-				dupLatest = append(dupLatest, id)
-			}
+	// entities whose newest version is a duplicate of its predecessor
+	var dupLatest []string
+	for _, id := range kit.SortedKeys(m.ByID) {
+		vs := m.ByID[id]
+		if k := len(vs); k >= 2 && kit.EqualContent(vs[k-1].E, vs[k-2].E) {
+			dupLatest = append(dupLatest, id)
 		}
-		if len(dupLatest) > 0 && rapid.IntRange(0, 1).Draw(t, "tgtdup") == 0 {
-			rc.Ents = []*kit.Ent{c12GenEnt(t, m, p, rapid.SampledFrom(dupLatest).Draw(t, "rid"))}
-		} else {
-			rc.Ents = c12GenBatch(t, m, p, p.IDs[:3])
+	}
+	for i := 0; i < nr; i++ {
+		rc := c12Race{Flush: rapid.SampledFrom(flushes).Draw(t, "rflush")}
+		// the writer's view of the dataset evolves with its own writes
+		wm := &c12Model{ByID: map[string][]*c12Ver{}}
+		for id, vs := range m.ByID {
+			wm.ByID[id] = append([]*c12Ver(nil), vs...)
+		}
+		nw := rapid.SampledFrom([]int{1, 1, 2, 3}).Draw(t, "nw")
+		for j := 0; j < nw; j++ {
+			w := c12RaceW{HitSel: rapid.IntRange(0, 999).Draw(t, "hit"), Via: rapid.SampledFrom([]string{"store", "parser"}).Draw(t, "rvia")}
+			if len(dupLatest) > 0 && rapid.IntRange(0, 2).Draw(t, "tgtdup") == 0 {
+				w.Ents = []*kit.Ent{c12GenEnt(t, wm, p, rapid.SampledFrom(dupLatest).Draw(t, "rid"))}
+			} else {
+				w.Ents = c12GenBatch(t, wm, p, p.IDs[:3])
+			}
+			wm.write(-1, w.Ents)
+			rc.Writes = append(rc.Writes, w)
 		}
 		c.Races = append(c.Races, rc)
 	}
@@ -1185,6 +1249,20 @@ func TestVerif_C12(t *testing.T) {
 	}
 	rapid.Check(t, func(t *rapid.T) {
 		c := c12GenCase(t)
+		if kit.Known("F10") {
+			// keep the longest prefix of the history that is outside the known shape
+			n := len(c.Ops)
+			for n > 0 && c12ModelOf(c.Ops[:n]).shapeF10() {
+				n--
+			}
+			if n < len(c.Ops) {
+				kit.S().Exclude("F10")
+				if n < 3 {
+					return
+				}
+				c.Ops = c.Ops[:n]
+			}
+		}
 		kit.Journal(c)
 		r, ran := c12Run(t, c, false)
 		kit.JournalDone()
@@ -1240,6 +1318,6 @@ func TestVerifProbe_F11(t *testing.T) {
 	e0, k := a+":e0", a+":p0"
 	c12Run(t, &c12Case{
 		Ops:   []c12Op{c12W(c12E(e0, map[string]any{k: "A"}, nil, false)), {K: "dup", ID: e0}},
-		Races: []c12Race{{Flush: 1, HitSel: 0, Via: "store", Ents: []*kit.Ent{c12E(e0, map[string]any{k: "B"}, nil, false)}}},
+		Races: []c12Race{{Flush: 1, Writes: []c12RaceW{{HitSel: 0, Via: "store", Ents: []*kit.Ent{c12E(e0, map[string]any{k: "B"}, nil, false)}}}}},
 	}, true)
 }
